@@ -291,10 +291,19 @@ Section Rows.
       destruct (filter_rows X E ce b) as [y|]; simpl; auto. destruct (is_tt t); reflexivity.
   Qed.
 
-  Lemma apply_filter_app ce a b :
-    apply_filter X E ce (a ++ b) =
-    bind (apply_filter X E ce a) (fun x => bind (apply_filter X E ce b) (fun y => Ok (x ++ y))).
+  Lemma apply_rows_app ce a b :
+    apply_rows X E ce (a ++ b) =
+    bind (apply_rows X E ce a) (fun x => bind (apply_rows X E ce b) (fun y => Ok (x ++ y))).
   Proof. destruct ce as [e|]; simpl; [apply filter_rows_app|reflexivity]. Qed.
+
+  (* binding comes first: a refused expression raises whatever the rows are -- also without rows *)
+  Variable B : cexpr -> bool.
+
+  Lemma apply_filter_refused ce rows : refused B ce = true -> apply_filter X E B ce rows = Err EEval.
+  Proof. unfold apply_filter. intros ->. reflexivity. Qed.
+
+  Lemma apply_filter_bound ce rows : refused B ce = false -> apply_filter X E B ce rows = apply_rows X E ce rows.
+  Proof. unfold apply_filter. intros ->. reflexivity. Qed.
 End Rows.
 
 (* ------------------------------------------------------------------ projection *)
@@ -362,6 +371,7 @@ Proof. intro Hn. apply chunk_aux_concat; auto. Qed.
 Section Agree.
   Variable X : value -> value -> bool.
   Variable E : cexpr -> row -> bool.
+  Variable B : cexpr -> bool.
   Variable PA : parg -> bool.
   Variable sch : list Z.
   Variable ids : list (Z * Z).
@@ -369,39 +379,49 @@ Section Agree.
 
   (* read, filter, project: the one meaning every path must have *)
   Definition rfp (cols : option (list Z)) (ce : option cexpr) (rows : list row) : res (list row) :=
-    bind (apply_filter X E ce rows) (fun x => Ok (sel cols x)).
+    bind (apply_filter X E B ce rows) (fun x => Ok (sel cols x)).
 
-  Lemma rfp_app cols ce a b :
-    rfp cols ce (a ++ b) = bind (rfp cols ce a) (fun x => bind (rfp cols ce b) (fun y => Ok (x ++ y))).
+  (* ... once the expression is bound: row by row *)
+  Definition rfp0 (cols : option (list Z)) (ce : option cexpr) (rows : list row) : res (list row) :=
+    bind (apply_rows X E ce rows) (fun x => Ok (sel cols x)).
+
+  Lemma rfp_refused cols ce rows : refused B ce = true -> rfp cols ce rows = Err EEval.
+  Proof. intro R. unfold rfp. rewrite apply_filter_refused by exact R. reflexivity. Qed.
+
+  Lemma rfp_bound cols ce rows : refused B ce = false -> rfp cols ce rows = rfp0 cols ce rows.
+  Proof. intro R. unfold rfp, rfp0. rewrite apply_filter_bound by exact R. reflexivity. Qed.
+
+  Lemma rfp0_app cols ce a b :
+    rfp0 cols ce (a ++ b) = bind (rfp0 cols ce a) (fun x => bind (rfp0 cols ce b) (fun y => Ok (x ++ y))).
   Proof.
-    unfold rfp. rewrite apply_filter_app.
-    destruct (apply_filter X E ce a) as [x|]; simpl; auto.
-    destruct (apply_filter X E ce b) as [y|]; simpl; auto. rewrite sel_app. reflexivity.
+    unfold rfp0. rewrite apply_rows_app.
+    destruct (apply_rows X E ce a) as [x|]; simpl; auto.
+    destruct (apply_rows X E ce b) as [y|]; simpl; auto. rewrite sel_app. reflexivity.
   Qed.
 
-  Lemma rfp_concat cols ce bs :
-    rfp cols ce (concat bs) = bind (mapM (rfp cols ce) bs) (fun xs => Ok (concat xs)).
+  Lemma rfp0_concat cols ce bs :
+    rfp0 cols ce (concat bs) = bind (mapM (rfp0 cols ce) bs) (fun xs => Ok (concat xs)).
   Proof.
     induction bs as [|b bs IH]; simpl.
-    - unfold rfp. destruct ce; simpl; destruct cols; reflexivity.
-    - rewrite rfp_app, IH. destruct (rfp cols ce b) as [x|]; simpl; auto.
-      destruct (mapM (rfp cols ce) bs) as [xs|]; reflexivity.
+    - unfold rfp0. destruct ce; simpl; destruct cols; reflexivity.
+    - rewrite rfp0_app, IH. destruct (rfp0 cols ce b) as [x|]; simpl; auto.
+      destruct (mapM (rfp0 cols ce) bs) as [xs|]; reflexivity.
   Qed.
 
-  Lemma read_verified_rfp cols ce rows : valid_cols sch cols -> read_verified X E sch cols ce rows = rfp cols ce rows.
+  Lemma read_verified_rfp cols ce rows : valid_cols sch cols -> read_verified X E B sch cols ce rows = rfp cols ce rows.
   Proof. intro V. unfold read_verified, rfp. apply bind_ext. intro a. apply select_valid; auto. Qed.
 
-  Lemma read_direct_rfp cols ce rows : valid_cols sch cols -> read_direct X E sch cols ce rows = rfp cols ce rows.
+  Lemma read_direct_rfp cols ce rows : valid_cols sch cols -> read_direct X E B sch cols ce rows = rfp cols ce rows.
   Proof.
     intro V. unfold read_direct, rfp. destruct ce as [e|].
     - apply bind_ext. intro a. apply select_valid; auto.
     - simpl. apply select_valid; auto.
   Qed.
 
-  Lemma read_one_rfp verify cols ce f : valid_cols sch cols -> read_one X E sch verify cols ce f = rfp cols ce (frows f).
+  Lemma read_one_rfp verify cols ce f : valid_cols sch cols -> read_one X E B sch verify cols ce f = rfp cols ce (frows f).
   Proof. intro V. unfold read_one. destruct (verify && fcs f); [apply read_verified_rfp | apply read_direct_rfp]; auto. Qed.
 
-  Lemma batch_out_rfp cols ce b : valid_cols sch cols -> batch_out X E sch cols ce b = rfp cols ce b.
+  Lemma batch_out_rfp cols ce b : valid_cols sch cols -> batch_out X E B sch cols ce b = rfp cols ce b.
   Proof.
     intro V. unfold batch_out, rfp. destruct ce as [e|].
     - apply bind_ext. intro a. apply select_valid; auto.
@@ -410,14 +430,35 @@ Section Agree.
 
   Definition flat (r : res (list (list row))) : res (list row) := bind r (fun bs => Ok (concat bs)).
 
+  Lemma concat_nil_nil {A} (bs : list (list A)) : bs = [] -> concat bs = [].
+  Proof. intros ->. reflexivity. Qed.
+
+  (* the batches of a file, flattened, are read-filter-project of the file -- for a file WITHOUT rows (whatever
+     `split` makes of it: no batch at all, or empty batches) thanks to the check on the empty table *)
   Lemma file_batches_flat split cols ce f :
     valid_cols sch cols -> (forall l, concat (split l) = l) ->
-    flat (file_batches X E sch split cols ce f) = rfp cols ce (frows f).
+    flat (file_batches X E B sch split cols ce f) = rfp cols ce (frows f).
   Proof.
-    intros V S. unfold flat, file_batches. rewrite bind_assoc. simpl.
+    intros V S. unfold flat, file_batches. rewrite bind_assoc.
     rewrite (mapM_ext _ (rfp cols ce)) by (intros; apply batch_out_rfp; auto).
-    rewrite <- (S (frows f)) at 2. rewrite rfp_concat.
-    apply bind_ext. intro bs. rewrite concat_filter_nonempty. reflexivity.
+    destruct (refused B ce) eqn:R.
+    - (* refused: the first batch raises; without any batch, the empty-table check does *)
+      rewrite (rfp_refused cols ce (frows f) R).
+      destruct (split (frows f)) as [|b bs] eqn:Sp.
+      + simpl. unfold empty_file_check.
+        assert (F0 : frows f = []) by (rewrite <- (S (frows f)), Sp; reflexivity).
+        rewrite F0. destruct ce as [e|]; [|discriminate R].
+        rewrite apply_filter_refused by exact R. reflexivity.
+      + simpl. rewrite (rfp_refused cols ce b R). reflexivity.
+    - (* bound: row by row, as before; the check on the empty table passes *)
+      rewrite (mapM_ext _ (rfp0 cols ce)) by (intros; apply rfp_bound; exact R).
+      rewrite (rfp_bound cols ce (frows f) R).
+      transitivity (rfp0 cols ce (concat (split (frows f)))); [|rewrite S; reflexivity]. rewrite rfp0_concat.
+      apply bind_ext. intro bs.
+      assert (C : exists x, empty_file_check X E B sch cols ce f = Ok x).
+      { unfold empty_file_check. destruct (frows f); [|eauto]. destruct ce as [e|]; [|eauto].
+        rewrite apply_filter_bound by exact R. simpl. rewrite select_valid by exact V. eauto. }
+      destruct C as [x ->]. simpl. rewrite concat_filter_nonempty. reflexivity.
   Qed.
 
   Lemma mapM_flat {A} (g : A -> res (list (list row))) (h : A -> res (list row)) l :
@@ -439,31 +480,31 @@ Section Agree.
 
   Theorem scan_verify_irrelevant v1 v2 cols flt files :
     valid_cols sch cols ->
-    scan_table X E PA sch ids bounds v1 cols flt files = scan_table X E PA sch ids bounds v2 cols flt files.
+    scan_table X E B PA sch ids bounds v1 cols flt files = scan_table X E B PA sch ids bounds v2 cols flt files.
   Proof.
     intro V. unfold scan_table. apply bind_ext. intros [es ce]. simpl.
     destruct files as [|f fs]; auto.
-    rewrite (mapM_ext (read_one X E sch v1 cols ce) (fun f0 => rfp cols ce (frows f0))) by (intros; apply read_one_rfp; auto).
-    rewrite (mapM_ext (read_one X E sch v2 cols ce) (fun f0 => rfp cols ce (frows f0))) by (intros; apply read_one_rfp; auto).
+    rewrite (mapM_ext (read_one X E B sch v1 cols ce) (fun f0 => rfp cols ce (frows f0))) by (intros; apply read_one_rfp; auto).
+    rewrite (mapM_ext (read_one X E B sch v2 cols ce) (fun f0 => rfp cols ce (frows f0))) by (intros; apply read_one_rfp; auto).
     reflexivity.
   Qed.
 
   Theorem batches_agree split v cols flt files :
     valid_cols sch cols -> (forall l, concat (split l) = l) ->
-    flat (scan_batches X E PA sch ids bounds split cols flt files) = scan_table X E PA sch ids bounds v cols flt files.
+    flat (scan_batches X E B PA sch ids bounds split cols flt files) = scan_table X E B PA sch ids bounds v cols flt files.
   Proof.
     intros V S. unfold scan_batches, scan_table, flat at 1. rewrite bind_assoc.
     apply bind_ext. intros [es ce]. simpl.
     destruct files as [|f fs].
     - rewrite prune_p_nil. reflexivity.
     - rewrite (concat_tables_fun sch cols V).
-      apply (mapM_flat (file_batches X E sch split cols ce) (read_one X E sch v cols ce)).
+      apply (mapM_flat (file_batches X E B sch split cols ce) (read_one X E B sch v cols ce)).
       intros a _. rewrite file_batches_flat, read_one_rfp; auto.
   Qed.
 
   Theorem iter_agree v cols flt files :
     valid_cols sch cols ->
-    iter_records X E PA sch ids bounds cols flt files = scan_table X E PA sch ids bounds v cols flt files.
+    iter_records X E B PA sch ids bounds cols flt files = scan_table X E B PA sch ids bounds v cols flt files.
   Proof.
     intro V. unfold iter_records. apply (batches_agree (chunk 1000) v cols flt files V).
     intro l. apply chunk_concat. lia.
@@ -512,9 +553,20 @@ Proof. induction ts as [|t ts IH]; simpl; [destruct cols; reflexivity|]. rewrite
 Lemma filter_concat {A} (p : A -> bool) (ls : list (list A)) : filter p (concat ls) = concat (map (filter p) ls).
 Proof. induction ls as [|l ls IH]; simpl; auto. rewrite filter_app, IH. reflexivity. Qed.
 
+Lemma mapM_raises {A R} (g : A -> res R) l a k :
+  In a l -> g a = Err k -> (forall x k', g x = Err k' -> k' = k) -> mapM g l = Err k.
+Proof.
+  induction l as [|a0 l IH]; simpl; [contradiction|]. intros [->|I] Ga U.
+  - rewrite Ga. reflexivity.
+  - destruct (g a0) as [b|k0] eqn:G0; simpl.
+    + rewrite (IH I Ga U). reflexivity.
+    + f_equal. eapply U; eauto.
+Qed.
+
 Section Spec.
   Variable X : value -> value -> bool.
   Variable E : cexpr -> row -> bool.
+  Variable B : cexpr -> bool.
   Variable PA : parg -> bool.
   Variable sch : list Z.
   Variable ids : list (Z * Z).
@@ -540,11 +592,12 @@ Section Spec.
     map to_fexpr ps = map Some es ->
     valid_cols sch cols ->
     NoDup (map snd ids) -> (forall f, In f files -> wf_file ids (frows f)) ->
+    refused B ce = false ->
     (forall e f r, ce = Some e -> In f files -> In r (frows f) -> eval3 X E e r <> None) ->
-    scan_table X E PA sch ids stored_bounds v cols flt files
+    scan_table X E B PA sch ids stored_bounds v cols flt files
     = Ok (sel cols (filter (row_selected X es) (concat (map frows files)))).
   Proof.
-    intros P Sh V ND WF NR. unfold scan_table. rewrite P. simpl.
+    intros P Sh V ND WF NB NR. unfold scan_table. rewrite P. simpl.
     rewrite (concat_tables_fun sch cols V).
     destruct files as [|f0 fs0]; [destruct cols; reflexivity|].
     remember (f0 :: fs0) as files. clear Heqfiles f0 fs0.
@@ -556,11 +609,11 @@ Section Spec.
     { unfold files', prune_p. destruct ps; auto. destruct files; auto. intros f1 I. apply filter_In in I. tauto. }
     rewrite (mapM_ok _ (fun f => sel cols (filter (row_selected X es) (frows f)))).
     - reflexivity.
-    - intros f I. rewrite read_one_rfp by auto. unfold rfp.
+    - intros f I. rewrite read_one_rfp by auto. rewrite (rfp_bound X E B cols ce (frows f) NB). unfold rfp0.
       unfold prepare in P. destruct (parse flt) as [ps0|] eqn:Pa; simpl in P; [|discriminate].
-      destruct (build PA ps0) as [ce0|] eqn:B; simpl in P; [|discriminate]. inversion P; subst ps0 ce0; clear P.
-      unfold build in B. destruct (mapM (condition PA) ps) as [cs|] eqn:M; simpl in B; [|discriminate].
-      injection B as G.
+      destruct (build PA ps0) as [ce0|] eqn:Bd; simpl in P; [|discriminate]. inversion P; subst ps0 ce0; clear P.
+      unfold build in Bd. destruct (mapM (condition PA) ps) as [cs|] eqn:M; simpl in Bd; [|discriminate].
+      injection Bd as G.
       destruct ce as [e|]; simpl.
       + rewrite filter_rows_ok by (intros r Hr; apply (NR e f r eq_refl (Sub f I) Hr)). simpl.
         do 2 f_equal. apply filter_ext_in. intros r Hr.
@@ -575,27 +628,39 @@ Section Spec.
         clear. induction (frows f) as [|r rs IH]; simpl; auto. rewrite <- IH. reflexivity.
   Qed.
 
-  (* if pyarrow refuses a row of a file that is read, every API raises (by the agreement theorems it is
-     enough to say it for scan_table) *)
-  Theorem scan_raises bounds v cols flt files ps e f r :
-    prepare PA flt = Ok (ps, Some e) -> valid_cols sch cols ->
-    In f (prune_p ids bounds ps files) -> In r (frows f) -> eval3 X E e r = None ->
-    scan_table X E PA sch ids bounds v cols flt files = Err EEval.
+  (* read-filter-project raises only EEval ... *)
+  Lemma rfp_err cols ce rows k : rfp X E B cols ce rows = Err k -> k = EEval.
   Proof.
-    intros P V I Hr N. unfold scan_table. rewrite P. simpl.
-    rewrite (concat_tables_fun sch cols V).
+    unfold rfp, apply_filter. destruct (refused B ce); simpl; [congruence|].
+    destruct ce as [e|]; simpl; [|discriminate].
+    destruct (filter_rows X E e rows) as [x|k'] eqn:FR; simpl; [discriminate|].
+    intros [= <-]. apply filter_rows_err in FR. tauto.
+  Qed.
+
+  (* ... and does so when pyarrow refuses to bind the expression (rows or no rows) or refuses one of the rows *)
+  Definition pyarrow_refuses (e : cexpr) (rows : list row) : Prop :=
+    B e = true \/ exists r, In r rows /\ eval3 X E e r = None.
+
+  Lemma rfp_raises cols e rows : pyarrow_refuses e rows -> rfp X E B cols (Some e) rows = Err EEval.
+  Proof.
+    unfold rfp, apply_filter. simpl. intros [R|[r [I N]]].
+    - rewrite R. reflexivity.
+    - destruct (B e); [reflexivity|]. simpl. rewrite (filter_rows_raises X E e rows r I N). reflexivity.
+  Qed.
+
+  (* if pyarrow refuses the expression on a file that is read -- at binding, or on one of its rows -- the scan
+     raises (by the agreement theorems every API does: refused_raises_everywhere below) *)
+  Theorem scan_raises bounds v cols flt files ps e f :
+    prepare PA flt = Ok (ps, Some e) -> valid_cols sch cols ->
+    In f (prune_p ids bounds ps files) -> pyarrow_refuses e (frows f) ->
+    scan_table X E B PA sch ids bounds v cols flt files = Err EEval.
+  Proof.
+    intros P V I N. unfold scan_table. rewrite P. simpl.
     destruct files as [|f0 fs0]; [rewrite prune_p_nil in I; contradiction|].
     remember (f0 :: fs0) as files. clear Heqfiles.
-    destruct (mapM (read_one X E sch v cols (Some e)) (prune_p ids bounds ps files)) as [ts|k] eqn:M; simpl.
-    - apply mapM_Forall2 in M. exfalso.
-      assert (G : forall l ts, Forall2 (fun a b => read_one X E sch v cols (Some e) a = Ok b) l ts -> In f l -> False).
-      { clear -V Hr N. intros l ts F2. induction F2 as [|a b l ts H F2 IH]; intro I; [contradiction|]. destruct I as [->|I]; auto.
-        rewrite read_one_rfp in H by auto. unfold rfp in H. simpl in H.
-        rewrite (filter_rows_raises X E e (frows f) r Hr N) in H. discriminate. }
-      eapply G; eauto.
-    - apply mapM_err in M. destruct M as [a [Ia Fa]]. rewrite read_one_rfp in Fa by auto.
-      unfold rfp in Fa. simpl in Fa. destruct (filter_rows X E e (frows a)) as [x|k'] eqn:FR; simpl in Fa; [discriminate|].
-      inversion Fa; subst. apply filter_rows_err in FR. destruct FR as [-> _]. reflexivity.
+    rewrite (mapM_raises (read_one X E B sch v cols (Some e)) (prune_p ids bounds ps files) f EEval I); [reflexivity| |].
+    - rewrite read_one_rfp by auto. apply rfp_raises. exact N.
+    - intros x k' Hx. rewrite read_one_rfp in Hx by auto. eapply rfp_err; eauto.
   Qed.
 End Spec.
 
@@ -607,36 +672,121 @@ Proof.
   - intro I. exists k. split; auto. apply String.eqb_refl.
 Qed.
 
-Definition known_key (k : okey) : Prop :=
-  exists s, k = OpStr s /\
-    (lower s = between_key \/ In (lower s) is_null_aliases \/ In (lower s) is_not_null_aliases
-     \/ assoc_str (lower s) op_table <> None).
+(* The documented filter language, written down INDEPENDENTLY of the parser and of the regenerated tables:
+   what each (lower-cased) operator spelling means ... *)
+Definition sql_meaning (s : string) : option fop :=
+  if String.eqb s "==" || String.eqb s "=" || String.eqb s "eq" then Some EQ
+  else if String.eqb s "!=" || String.eqb s "<>" || String.eqb s "ne" then Some NE
+  else if String.eqb s "<" || String.eqb s "lt" then Some LT
+  else if String.eqb s "<=" || String.eqb s "le" then Some LE
+  else if String.eqb s ">" || String.eqb s "gt" then Some GT
+  else if String.eqb s ">=" || String.eqb s "ge" then Some GE
+  else if String.eqb s "in" then Some IN
+  else if String.eqb s "not_in" || String.eqb s "not in" || String.eqb s "notin" then Some NOT_IN
+  else None.
 
-Local Opaque op_table between_key is_null_aliases is_not_null_aliases.
+Inductive spelling := SBetween | SIsNull | SIsNotNull | SOp (op : fop).
 
-Lemma parse_one_unknown c k a : ~ known_key k -> parse_one c (CPair k a) = Err EParse.
+Definition spelled (s : string) : option spelling :=
+  if String.eqb s "between" then Some SBetween
+  else if String.eqb s "is_null" || String.eqb s "isnull" then Some SIsNull
+  else if String.eqb s "is_not_null" || String.eqb s "notnull" || String.eqb s "isnotnull" then Some SIsNotNull
+  else option_map SOp (sql_meaning s).
+
+(* ... and which conditions are filters at all: a known spelling with an argument of the shape it takes --
+   `between` a PAIR (not a str, whose characters would be unpacked), is_null / is_not_null the flag True (not False,
+   which asks for the opposite), in / not_in anything but a str (whose characters would be iterated; a non-str scalar
+   is refused when the expression is built: value_set_scalar_raises); {"c": None} is not one. *)
+Definition well_formed (cd : cond) : bool :=
+  match cd with
+  | CPlain (AVal VNull) => false
+  | CPlain _ => true
+  | CPair OpOther _ => false
+  | CPair (OpStr s) a =>
+    match spelled (lower s) with
+    | None => false
+    | Some SBetween => match a with AList [_; _] => true | _ => false end
+    | Some SIsNull | Some SIsNotNull => match a with AVal (VBool true) => true | _ => false end
+    | Some (SOp IN) | Some (SOp NOT_IN) => match a with AVal (VStr _) => false | _ => true end
+    | Some (SOp _) => true
+    end
+  end.
+
+(* what a well-formed condition means, again independently: the FilterExpressions it stands for *)
+Definition meaning (c : Z) (cd : cond) : list pexpr :=
+  match cd with
+  | CPlain a => [ {| pcol := c; pop := EQ; pval := a |} ]
+  | CPair OpOther _ => []
+  | CPair (OpStr s) a =>
+    match spelled (lower s), a with
+    | Some SBetween, AList [lo; hi] => [ {| pcol := c; pop := GE; pval := AVal lo |}; {| pcol := c; pop := LE; pval := AVal hi |} ]
+    | Some SIsNull, _ => [ {| pcol := c; pop := IS_NULL; pval := AVal VNull |} ]
+    | Some SIsNotNull, _ => [ {| pcol := c; pop := IS_NOT_NULL; pval := AVal VNull |} ]
+    | Some (SOp op), _ => [ {| pcol := c; pop := op; pval := a |} ]
+    | _, _ => []
+    end
+  end.
+
+(* the parser's own classification of a key, by the REGENERATED tables in the order parse_filter_dict tests them *)
+Definition key_class (s : string) : option spelling :=
+  if String.eqb between_key s then Some SBetween
+  else if mem_str s is_null_aliases then Some SIsNull
+  else if mem_str s is_not_null_aliases then Some SIsNotNull
+  else option_map SOp (assoc_str s op_table).
+
+(* the regenerated alias table IS the independent reading of the operator spellings *)
+Theorem op_table_is_sql s : assoc_str s op_table = sql_meaning s.
 Proof.
-  intro U. unfold parse_one. destruct k as [s|]; simpl; auto.
-  destruct (String.eqb_spec between_key (lower s)) as [Q|_].
-  { exfalso. apply U. exists s. split; auto. }
-  destruct (mem_str (lower s) is_null_aliases) eqn:M1.
-  { exfalso. apply U. exists s. split; auto. right. left. apply mem_str_in. auto. }
-  destruct (mem_str (lower s) is_not_null_aliases) eqn:M2.
-  { exfalso. apply U. exists s. split; auto. right. right. left. apply mem_str_in. auto. }
-  destruct (assoc_str (lower s) op_table) eqn:A; simpl; auto.
-  exfalso. apply U. exists s. split; auto. right. right. right. congruence.
+  unfold op_table, sql_meaning. cbn [assoc_str].
+  repeat match goal with
+         | |- context [String.eqb s ?k] => destruct (String.eqb s k); cbn [orb]; try reflexivity
+         end.
+Qed.
+
+Theorem op_table_meaning s op : assoc_str s op_table = Some op -> sql_meaning s = Some op.
+Proof. rewrite op_table_is_sql. auto. Qed.
+
+Theorem key_class_spelled s : key_class s = spelled s.
+Proof.
+  unfold key_class, spelled, between_key, is_null_aliases, is_not_null_aliases, mem_str. cbn [existsb].
+  rewrite op_table_is_sql, (String.eqb_sym "between" s), !orb_false_r, ?orb_assoc. reflexivity.
+Qed.
+
+Lemma parse_one_pair c s a :
+  parse_one c (CPair (OpStr s) a) =
+  match key_class (lower s) with
+  | Some SBetween => bind (unpack2 a) (fun lh => Ok [ {| pcol := c; pop := GE; pval := AVal (fst lh) |};
+                                                      {| pcol := c; pop := LE; pval := AVal (snd lh) |} ])
+  | Some SIsNull => if flag_true a then Ok [ {| pcol := c; pop := IS_NULL; pval := AVal VNull |} ] else Err EParse
+  | Some SIsNotNull => if flag_true a then Ok [ {| pcol := c; pop := IS_NOT_NULL; pval := AVal VNull |} ] else Err EParse
+  | Some (SOp op) => if text_value_set op a then Err EParse else Ok [ {| pcol := c; pop := op; pval := a |} ]
+  | None => Err EParse
+  end.
+Proof.
+  unfold parse_one, key_is, key_class, parse_op.
+  destruct (String.eqb between_key (lower s)); [reflexivity|].
+  destruct (mem_str (lower s) is_null_aliases); [reflexivity|].
+  destruct (mem_str (lower s) is_not_null_aliases); [reflexivity|].
+  destruct (assoc_str (lower s) op_table); reflexivity.
+Qed.
+
+(* the parser accepts exactly the well-formed conditions, with exactly their meaning *)
+Theorem parse_one_spec c cd :
+  parse_one c cd = if well_formed cd then Ok (meaning c cd) else Err EParse.
+Proof.
+  destruct cd as [a|[s|] a].
+  - destruct a as [[]|]; reflexivity.
+  - rewrite parse_one_pair, key_class_spelled. unfold well_formed, meaning.
+    destruct (spelled (lower s)) as [[| | |op]|]; [| | | |reflexivity].
+    + destruct a as [v|[|lo [|hi [|x l]]]]; reflexivity.
+    + destruct a as [[|[]| | | | | |]|]; reflexivity.
+    + destruct a as [[|[]| | | | | |]|]; reflexivity.
+    + destruct op; destruct a as [[]|]; reflexivity.
+  - reflexivity.
 Qed.
 
 Lemma parse_one_err c cd k : parse_one c cd = Err k -> k = EParse.
-Proof.
-  unfold parse_one. destruct cd as [a|ky a].
-  - destruct a as [[]|]; simpl; congruence.
-  - destruct (key_is _ ky).
-    { unfold unpack2. destruct a as [[| | | |[|x [|y [|]]]| | |]|[|lo [|hi [|]]]]; simpl; congruence. }
-    destruct (key_is _ ky); [discriminate|]. destruct (key_is _ ky); [discriminate|].
-    unfold parse_op. destruct ky as [s|]; simpl; [|congruence].
-    destruct (assoc_str (lower s) op_table); simpl; congruence.
-Qed.
+Proof. rewrite parse_one_spec. destruct (well_formed cd); congruence. Qed.
 
 Lemma parse_err f k : parse f = Err k -> k = EParse.
 Proof.
@@ -655,57 +805,43 @@ Proof.
     + f_equal. eapply parse_one_err; eauto.
 Qed.
 
+(* Malformed filters raise instead of being reinterpreted: the parser fails EXACTLY when some condition of the filter
+   is not well-formed, and otherwise returns the meanings of the conditions, in order. *)
 Theorem parse_strict f :
-  (exists c k a, In (c, CPair k a) f /\ ~ known_key k) \/ (exists c, In (c, CPlain (AVal VNull)) f) ->
-  parse f = Err EParse.
+  (forall c cd, In (c, cd) f -> well_formed cd = true) /\ parse f = Ok (flat_map (fun ccd => meaning (fst ccd) (snd ccd)) f)
+  \/ (exists c cd, In (c, cd) f /\ well_formed cd = false) /\ parse f = Err EParse.
 Proof.
-  intros [[c [k [a [I U]]]]|[c I]].
-  - eapply parse_entry_err; eauto. apply parse_one_unknown; auto.
-  - eapply parse_entry_err; eauto.
+  induction f as [|[c cd] f IH]; simpl.
+  - left. split; [intros c cd []|reflexivity].
+  - rewrite parse_one_spec. destruct (well_formed cd) eqn:W; simpl.
+    + destruct IH as [[WF ->]|[[c' [cd' [I W']]] ->]]; simpl.
+      * left. split; [|reflexivity]. intros c' cd' [[= <- <-]|I]; auto. eapply WF; eauto.
+      * right. split; [|reflexivity]. exists c', cd'. auto.
+    + right. split; [|reflexivity]. exists c, cd. auto.
 Qed.
+
+Corollary malformed_parse_error f c cd : In (c, cd) f -> well_formed cd = false -> parse f = Err EParse.
+Proof. intros I W. apply (parse_entry_err f c cd I). rewrite parse_one_spec, W. reflexivity. Qed.
 
 (* accepted operators are used as the table says -- never replaced by another one *)
 Theorem parse_one_faithful c s a ps :
   parse_one c (CPair (OpStr s) a) = Ok ps ->
   (lower s = between_key /\ exists lo hi, unpack2 a = Ok (lo, hi) /\
       ps = [ {| pcol := c; pop := GE; pval := AVal lo |}; {| pcol := c; pop := LE; pval := AVal hi |} ])
-  \/ (In (lower s) is_null_aliases /\ ps = [ {| pcol := c; pop := IS_NULL; pval := AVal VNull |} ])
-  \/ (In (lower s) is_not_null_aliases /\ ps = [ {| pcol := c; pop := IS_NOT_NULL; pval := AVal VNull |} ])
-  \/ (exists op, assoc_str (lower s) op_table = Some op /\ ps = [ {| pcol := c; pop := op; pval := a |} ]).
+  \/ (In (lower s) is_null_aliases /\ flag_true a = true /\ ps = [ {| pcol := c; pop := IS_NULL; pval := AVal VNull |} ])
+  \/ (In (lower s) is_not_null_aliases /\ flag_true a = true /\ ps = [ {| pcol := c; pop := IS_NOT_NULL; pval := AVal VNull |} ])
+  \/ (exists op, assoc_str (lower s) op_table = Some op /\ text_value_set op a = false /\ ps = [ {| pcol := c; pop := op; pval := a |} ]).
 Proof.
-  unfold parse_one. simpl.
+  rewrite parse_one_pair. unfold key_class.
   destruct (String.eqb_spec between_key (lower s)) as [Q|_].
-  { destruct (unpack2 a) as [[lo hi]|] eqn:U; simpl; [|discriminate]. intros [= <-]. left. split; auto. exists lo, hi. auto. }
+  { destruct (unpack2 a) as [[lo hi]|] eqn:U; cbn [bind fst snd]; [|discriminate]. intros [= <-]. left. split; auto. exists lo, hi. auto. }
   destruct (mem_str (lower s) is_null_aliases) eqn:M1.
-  { intros [= <-]. right. left. split; auto. apply mem_str_in; auto. }
+  { destruct (flag_true a) eqn:Fl; [|discriminate]. intros [= <-]. right. left. split; [apply mem_str_in; auto|auto]. }
   destruct (mem_str (lower s) is_not_null_aliases) eqn:M2.
-  { intros [= <-]. right. right. left. split; auto. apply mem_str_in; auto. }
-  destruct (assoc_str (lower s) op_table) as [op|] eqn:A; simpl; [|discriminate].
+  { destruct (flag_true a) eqn:Fl; [|discriminate]. intros [= <-]. right. right. left. split; [apply mem_str_in; auto|auto]. }
+  destruct (assoc_str (lower s) op_table) as [op|] eqn:A; cbn [option_map]; [|discriminate].
+  destruct (text_value_set op a) eqn:T; [discriminate|].
   intros [= <-]. right. right. right. exists op. auto.
-Qed.
-
-(* the regenerated alias table against an independent reading of the operator spellings *)
-Definition sql_meaning (s : string) : option fop :=
-  if String.eqb s "==" || String.eqb s "=" || String.eqb s "eq" then Some EQ
-  else if String.eqb s "!=" || String.eqb s "<>" || String.eqb s "ne" then Some NE
-  else if String.eqb s "<" || String.eqb s "lt" then Some LT
-  else if String.eqb s "<=" || String.eqb s "le" then Some LE
-  else if String.eqb s ">" || String.eqb s "gt" then Some GT
-  else if String.eqb s ">=" || String.eqb s "ge" then Some GE
-  else if String.eqb s "in" then Some IN
-  else if String.eqb s "not_in" || String.eqb s "not in" || String.eqb s "notin" then Some NOT_IN
-  else None.
-
-Local Transparent op_table between_key is_null_aliases is_not_null_aliases.
-
-Theorem op_table_meaning s op : assoc_str s op_table = Some op -> sql_meaning s = Some op.
-Proof.
-  unfold op_table. cbn [assoc_str].
-  repeat match goal with
-         | |- context [String.eqb s ?k] =>
-           destruct (String.eqb_spec s k); [subst; intros [= <-]; reflexivity|]
-         end.
-  discriminate.
 Qed.
 
 (* every FilterOp value string is itself accepted, with its own meaning; the special keys do not
@@ -738,6 +874,7 @@ Qed.
 Section Malformed.
   Variable X : value -> value -> bool.
   Variable E : cexpr -> row -> bool.
+  Variable B : cexpr -> bool.
   Variable PA : parg -> bool.
   Variable sch : list Z.
   Variable ids : list (Z * Z).
@@ -748,9 +885,9 @@ Section Malformed.
   Theorem malformed_raises_everywhere flt k :
     prepare PA flt = Err k ->
     forall v split cols files,
-      scan_table X E PA sch ids bounds v cols flt files = Err k
-      /\ scan_batches X E PA sch ids bounds split cols flt files = Err k
-      /\ iter_records X E PA sch ids bounds cols flt files = Err k.
+      scan_table X E B PA sch ids bounds v cols flt files = Err k
+      /\ scan_batches X E B PA sch ids bounds split cols flt files = Err k
+      /\ iter_records X E B PA sch ids bounds cols flt files = Err k.
   Proof.
     intros P v split cols files. unfold iter_records, scan_table, scan_batches. rewrite P. simpl. auto.
   Qed.
@@ -763,6 +900,7 @@ End Malformed.
 Section ProjectAfter.
   Variable X : value -> value -> bool.
   Variable E : cexpr -> row -> bool.
+  Variable B : cexpr -> bool.
 
   Lemma eval3_missing e r : (exists c, In c (fields e) /\ lookup c r = None) -> eval3 X E e r = None.
   Proof.
@@ -786,9 +924,10 @@ Section ProjectAfter.
 
   Theorem project_first_fails sch cs e rows c :
     valid_cols sch (Some cs) -> In c (fields e) -> ~ In c cs -> rows <> [] ->
-    read_project_first X E sch (Some cs) (Some e) rows = Err EEval.
+    read_project_first X E B sch (Some cs) (Some e) rows = Err EEval.
   Proof.
     intros V I NI NE. unfold read_project_first. rewrite select_valid by auto. simpl.
+    unfold apply_filter. simpl. destruct (B e); [reflexivity|].
     destruct rows as [|r rs]; [contradiction|]. simpl.
     rewrite eval3_missing; auto. exists c. split; auto. apply lookup_proj_none; auto.
   Qed.
@@ -838,16 +977,17 @@ Qed.
 Section Summary.
   Variable X : value -> value -> bool.
   Variable E : cexpr -> row -> bool.
+  Variable B : cexpr -> bool.
   Variable PA : parg -> bool.
   Variable sch : list Z.
   Variable ids : list (Z * Z).
 
   Theorem api_agree bounds split v cols flt files :
     valid_cols sch cols -> (forall l, concat (split l) = l) ->
-    let reference := scan_table X E PA sch ids bounds true cols flt files in
-    scan_table X E PA sch ids bounds v cols flt files = reference
-    /\ flat (scan_batches X E PA sch ids bounds split cols flt files) = reference
-    /\ iter_records X E PA sch ids bounds cols flt files = reference.
+    let reference := scan_table X E B PA sch ids bounds true cols flt files in
+    scan_table X E B PA sch ids bounds v cols flt files = reference
+    /\ flat (scan_batches X E B PA sch ids bounds split cols flt files) = reference
+    /\ iter_records X E B PA sch ids bounds cols flt files = reference.
   Proof.
     intros V S. cbv zeta. repeat split.
     - apply scan_verify_irrelevant; auto.
@@ -860,29 +1000,110 @@ Section Summary.
     map to_fexpr ps = map Some es ->
     valid_cols sch cols -> (forall l, concat (split l) = l) ->
     NoDup (map snd ids) -> (forall f, In f files -> wf_file ids (frows f)) ->
+    refused B ce = false ->
     (forall e f r, ce = Some e -> In f files -> In r (frows f) -> eval3 X E e r <> None) ->
     let answer := Ok (sel cols (filter (row_selected X es) (concat (map frows files)))) in
-    scan_table X E PA sch ids (stored_bounds ids) v cols flt files = answer
-    /\ flat (scan_batches X E PA sch ids (stored_bounds ids) split cols flt files) = answer
-    /\ iter_records X E PA sch ids (stored_bounds ids) cols flt files = answer.
+    scan_table X E B PA sch ids (stored_bounds ids) v cols flt files = answer
+    /\ flat (scan_batches X E B PA sch ids (stored_bounds ids) split cols flt files) = answer
+    /\ iter_records X E B PA sch ids (stored_bounds ids) cols flt files = answer.
   Proof.
-    intros P Sh V S ND WF NR. cbv zeta.
-    pose proof (scan_spec X E PA sch ids true cols flt files ps ce es P Sh V ND WF NR) as R.
+    intros P Sh V S ND WF NB NR. cbv zeta.
+    pose proof (scan_spec X E B PA sch ids true cols flt files ps ce es P Sh V ND WF NB NR) as R.
     destruct (api_agree (stored_bounds ids) split v cols flt files V S) as [A1 [A2 A3]].
+    cbv zeta in *. rewrite A1, A2, A3. auto.
+  Qed.
+
+  (* when pyarrow refuses the expression on a file that is read -- at BINDING (then the file need not have a row), or
+     on one of its rows -- EVERY API raises *)
+  Theorem refused_raises_everywhere bounds split v cols flt files ps e f :
+    prepare PA flt = Ok (ps, Some e) -> valid_cols sch cols -> (forall l, concat (split l) = l) ->
+    In f (prune_p ids bounds ps files) -> pyarrow_refuses X E B e (frows f) ->
+    scan_table X E B PA sch ids bounds v cols flt files = Err EEval
+    /\ flat (scan_batches X E B PA sch ids bounds split cols flt files) = Err EEval
+    /\ iter_records X E B PA sch ids bounds cols flt files = Err EEval.
+  Proof.
+    intros P V S I N.
+    pose proof (scan_raises X E B PA sch ids bounds true cols flt files ps e f P V I N) as R.
+    destruct (api_agree bounds split v cols flt files V S) as [A1 [A2 A3]].
     cbv zeta in *. rewrite A1, A2, A3. auto.
   Qed.
 End Summary.
 
+(* ------------------------------------------------------------------ a data file without rows
+   Why _iter_file_batches must show the EMPTY table of a file without rows to pyarrow: without that check
+   (`file_batches_unchecked`, the code before the repair) the batch APIs evaluate nothing on such a file and return no
+   rows, while scan() raises on an expression pyarrow cannot bind -- the APIs disagree. *)
+Theorem unchecked_batches_disagree :
+  exists (X : value -> value -> bool) (E : cexpr -> row -> bool) (B : cexpr -> bool) (PA : parg -> bool)
+         (sch : list Z) (ids : list (Z * Z)) (bounds : file -> list (Z * value) * list (Z * value))
+         (cols : option (list Z)) (flt : pyfilter) (files : list file),
+    valid_cols sch cols
+    /\ scan_table X E B PA sch ids bounds true cols flt files = Err EEval
+    /\ flat (scan_batches_unchecked X E B PA sch ids bounds (chunk 1000) cols flt files) = Ok []
+    /\ flat (scan_batches X E B PA sch ids bounds (chunk 1000) cols flt files) = Err EEval.
+Proof.
+  exists (fun _ _ => false), (fun _ _ => false), (fun _ => true), (fun _ => true), [0], [(0, 1)], (fun _ => ([], [])),
+         None, [(0, CPlain (AVal (VStr [120])))], [ {| frows := []; fcs := true |} ].
+  split; [exact I|]. vm_compute. auto.
+Qed.
+
+(* ------------------------------------------------------------------ in / not_in need a list *)
+Lemma parse_in f : forall ps c cd, parse f = Ok ps -> In (c, cd) f -> forall p, In p (meaning c cd) -> In p ps.
+Proof.
+  induction f as [|[c0 cd0] f IH]; simpl; intros ps c cd P I p Ip; [contradiction|].
+  rewrite parse_one_spec in P. destruct (well_formed cd0); simpl in P; [|discriminate].
+  destruct (parse f) as [ps'|] eqn:Pf; simpl in P; [|discriminate]. injection P as <-.
+  apply in_or_app. destruct I as [[= -> ->]|I]; [left; exact Ip|right; eapply IH; eauto].
+Qed.
+
+Lemma mapM_in_err {A R} (g : A -> res R) l a k : In a l -> g a = Err k -> exists k', mapM g l = Err k'.
+Proof.
+  induction l as [|a0 l IH]; simpl; [contradiction|]. intros [->|I] Ga.
+  - rewrite Ga. simpl. eauto.
+  - destruct (g a0); simpl; [|eauto]. destruct (IH I Ga) as [k' ->]. simpl. eauto.
+Qed.
+
+(* a SCALAR where in / not_in take a list is never "a set of one": a str is a parse error (its characters are not
+   iterated), any other scalar fails when the expression is built -- the filter is rejected by the front end, hence by
+   every API on every table (malformed_raises_everywhere) *)
+Theorem value_set_scalar_raises PA f c s v :
+  In (c, CPair (OpStr s) (AVal v)) f -> (sql_meaning (lower s) = Some IN \/ sql_meaning (lower s) = Some NOT_IN) ->
+  exists k, prepare PA f = Err k.
+Proof.
+  intros I M. unfold prepare. destruct (parse f) as [ps|k] eqn:P; simpl; [|eauto].
+  assert (Sp : exists op, (op = IN \/ op = NOT_IN) /\ spelled (lower s) = Some (SOp op)).
+  { unfold spelled.
+    assert (N : forall k, String.eqb (lower s) k = true -> sql_meaning (lower s) = sql_meaning k)
+      by (intros k Q; apply String.eqb_eq in Q; rewrite Q; reflexivity).
+    destruct (String.eqb (lower s) "between") eqn:Q1; [rewrite (N _ Q1) in M; vm_compute in M; intuition discriminate|].
+    destruct (String.eqb (lower s) "is_null") eqn:Q2; [rewrite (N _ Q2) in M; vm_compute in M; intuition discriminate|].
+    destruct (String.eqb (lower s) "isnull") eqn:Q3; [rewrite (N _ Q3) in M; vm_compute in M; intuition discriminate|].
+    destruct (String.eqb (lower s) "is_not_null") eqn:Q4; [rewrite (N _ Q4) in M; vm_compute in M; intuition discriminate|].
+    destruct (String.eqb (lower s) "notnull") eqn:Q5; [rewrite (N _ Q5) in M; vm_compute in M; intuition discriminate|].
+    destruct (String.eqb (lower s) "isnotnull") eqn:Q6; [rewrite (N _ Q6) in M; vm_compute in M; intuition discriminate|].
+    cbn [orb]. destruct M as [-> | ->]; [exists IN | exists NOT_IN]; auto. }
+  destruct Sp as [op [Hop Sp]].
+  assert (W : well_formed (CPair (OpStr s) (AVal v)) = true).
+  { destruct (parse_strict f) as [[WF _]|[_ Q]]; [eapply WF; eauto|congruence]. }
+  assert (Ip : In {| pcol := c; pop := op; pval := AVal v |} ps).
+  { eapply (parse_in f ps c _ P I). unfold meaning. rewrite Sp. left. reflexivity. }
+  assert (NS : match v with VStr _ => False | _ => True end).
+  { unfold well_formed in W. rewrite Sp in W. destruct Hop as [-> | ->]; destruct v; try exact I0; try discriminate; exact Logic.I. }
+  assert (C : condition PA {| pcol := c; pop := op; pval := AVal v |} = Err EBuild).
+  { unfold condition. simpl. destruct Hop as [-> | ->]; destruct v; simpl; try reflexivity; contradiction. }
+  unfold build. destruct (mapM_in_err (condition PA) ps _ EBuild Ip C) as [k' ->]. simpl. eauto.
+Qed.
+
 (* ------------------------------------------------------------------ the empty projection *)
 Theorem api_agree_empty_projection_refuted :
-  ~ (forall (X : value -> value -> bool) (E : cexpr -> row -> bool) (PA : parg -> bool)
+  ~ (forall (X : value -> value -> bool) (E : cexpr -> row -> bool) (B : cexpr -> bool) (PA : parg -> bool)
             (sch : list Z) (ids : list (Z * Z)) (bounds : file -> list (Z * value) * list (Z * value))
             (split : list row -> list (list row)) (v : bool) (cs : list Z) (flt : pyfilter) (files : list file),
        (forall c, In c cs -> In c sch) -> (forall l, concat (split l) = l) ->
-       flat (scan_batches X E PA sch ids bounds split (Some cs) flt files) = scan_table X E PA sch ids bounds v (Some cs) flt files).
+       flat (scan_batches X E B PA sch ids bounds split (Some cs) flt files) = scan_table X E B PA sch ids bounds v (Some cs) flt files).
 Proof.
   intro H.
-  specialize (H (fun _ _ => false) (fun _ _ => false) (fun _ => true) [0] [(0, 1)] (fun _ => ([], []))
+  specialize (H (fun _ _ => false) (fun _ _ => false) (fun _ => false) (fun _ => true) [0] [(0, 1)] (fun _ => ([], []))
                 (chunk 1) true [] [] [ {| frows := [ [(0, VInt 1)] ]; fcs := true |} ]).
   assert (S : forall l : list row, concat (chunk 1 l) = l) by (intro l; apply chunk_concat; lia).
   specialize (H (fun c F => match F with end) S). vm_compute in H. discriminate.
@@ -916,3 +1137,29 @@ Proof.
   - destruct (lookup c r); [discriminate|congruence].
   - discriminate.
 Qed.
+
+(* ------------------------------------------------------------------ NOT IN and NULLs in the value set
+   The property text says "in/not_in never match NULL" about the CELL; Table.scan documents that a NULL in the value set
+   "matches nothing and is dropped".  That is NOT the SQL standard's reading of `v NOT IN (w1, ..., NULL)`: there
+   NOT (v = w1 OR ... OR v = NULL) is UNKNOWN when no wi matches, and the row is not selected.  `sql3_not_in` is the
+   standard's three-valued value; the library (and `selected`, the specification of this check) selects exactly the rows on
+   which it is TRUE plus those on which it is UNKNOWN only because of NULLs in the value set. *)
+Definition sql3_not_in (X : value -> value -> bool) (v : value) (vals : list value) : tv :=
+  if is_null v then TN
+  else if existsb (fun w => negb (is_null w) && in_eq X v w) vals then TF
+  else if existsb is_null vals then TN
+  else TT.
+
+Theorem not_in_vs_sql3 X v vals :
+  selected X NOT_IN v VNull vals = true
+  <-> sql3_not_in X v vals = TT \/ (sql3_not_in X v vals = TN /\ is_null v = false /\ existsb is_null vals = true).
+Proof.
+  unfold selected, sql3_not_in. destruct (is_null v); [intuition discriminate|].
+  destruct (existsb (fun w => negb (is_null w) && in_eq X v w) vals); simpl; [intuition discriminate|].
+  destruct (existsb is_null vals); intuition.
+Qed.
+
+(* 4 NOT IN (3, NULL): selected here, UNKNOWN (not selected) by the SQL standard *)
+Theorem not_in_null_differs_from_sql :
+  forall X, selected X NOT_IN (VInt 4) VNull [VInt 3; VNull] = true /\ sql3_not_in X (VInt 4) [VInt 3; VNull] = TN.
+Proof. intro X. vm_compute. auto. Qed.
